@@ -3,8 +3,8 @@
      sels  := sel*
      sel   := 'f' name '(' sels ')'  |  'i(' sels ')'  |  's' name ';'
      frags := '-' | name '=' sels ('|' name '=' sels)*
-   output: ok|err|panic  x=<expanded depth>|none  k=<0|1>
-           (verdict of the model of check_max_depth; specification; membership in Known_C25) *)
+   output: ok|err|panic  x=<expanded depth>|none  e=<expanded depth of the expansion>  old=<verdict of the
+           model of the code before the D16 fix, informational> *)
 open Model
 open Util
 
@@ -64,10 +64,11 @@ let c25_depth (line : string) : string =
     let v = match check_max_depth fuel frs op with
       | VOk -> "ok" | VErr -> "err" | VPanic -> "panic" | VOutOfFuel -> "model-outoffuel" in
     let x = match xdepth fuel frs op with Some x -> string_of_int (int_of_n x) | None -> "none" in
-    let k = if known_c25_b fuel frs op then "1" else "0" in
+    let k = match check_max_depth_old fuel frs op with
+      | VOk -> "ok" | VErr -> "err" | VPanic -> "panic" | VOutOfFuel -> "model-outoffuel" in
     let e = match expand fuel frs op, xdepth fuel [] (match expand fuel frs op with Some e -> e | None -> []) with
       | Some _, Some y -> string_of_int (int_of_n y) | _ -> "none" in
-    Printf.sprintf "%s x=%s k=%s e=%s" v x k e
+    Printf.sprintf "%s x=%s e=%s old=%s" v x e k
   | _ -> failwith "c25_depth line"
 
 let families = [ ("c25_depth", c25_depth) ]
